@@ -48,13 +48,13 @@ Qed.
 (** one insertion, seen by a later lookup *)
 Lemma dm_get_add : forall c k v k' ne nn v',
   dm_get hash (dm_add hash c k v) k' ne nn = Some v' ->
-  (* not admitted: nothing changed *)
+  (* not accepted: nothing changed *)
   (key_fits (dm_cap c) k (length (v_edges v)) (length (v_nums v)) = false /\
    dm_get hash c k' ne nn = Some v') \/
-  (* admitted and the same bucket: it is exactly the inserted entry *)
+  (* accepted and the same bucket: it is exactly the inserted entry *)
   (key_fits (dm_cap c) k (length (v_edges v)) (length (v_nums v)) = true /\
    k' = k /\ v' = v /\ ne = length (v_edges v) /\ nn = length (v_nums v)) \/
-  (* admitted, another bucket: served as before *)
+  (* accepted, another bucket: served as before *)
   (key_fits (dm_cap c) k (length (v_edges v)) (length (v_nums v)) = true /\
    bucket_ix hash (dm_nb c) k <> bucket_ix hash (dm_nb c) k' /\
    dm_get hash c k' ne nn = Some v').
@@ -131,7 +131,7 @@ Lemma run_snoc : forall c ops o, dm_run hash c (ops ++ [o]) = dm_step hash (dm_r
 Proof. intros c ops o. unfold dm_run. rewrite fold_left_app. reflexivity. Qed.
 
 (** an operation that leaves the bucket of [k] alone: no clear, and no
-    admitted insertion into that bucket *)
+    accepted insertion into that bucket *)
 Definition quiet (nb : positive) (cap : nat) (k : dm_key) (o : dm_op) : Prop :=
   match o with
   | DClear => False
